@@ -139,6 +139,7 @@ unsigned lookup_component(const Components& compon, const f8String& name);
 void binary_report();
 string bintoaschex(const string& from);
 uint32_t group_hash(const MessageSpec& p1);
+bool same_group_definition(const MessageSpec& p1, const MessageSpec& p2);
 const MessageSpec *find_group(const CommonGroupMap& globmap, int& vers, unsigned tp, uint32_t key);
 void generate_group_traits(const FieldSpecMap& fspec, const MessageSpec& ms, const string& gname, const string& prefix, ostream& outp);
 void generate_export( ostream& to, const string& ns );
@@ -670,7 +671,12 @@ unsigned parse_groups(MessageSpec& ritr, const string& name,
                   CommonGroupMap::iterator cgitr(globmap.find(fs_itr->first));
                   if (cgitr == globmap.end())
                      cgitr = globmap.insert(make_pair(fs_itr->first, CommonGroups())).first;
-                  const uint32_t hv(group_hash(gresult.first->second));
+                  uint32_t hv(group_hash(gresult.first->second));
+                  // the structural hash can be the same for two different definitions of this group: only a definition with
+                  // the same members may share the slot, any other one gets the next free key
+                  for (CommonGroups::const_iterator oitr; (oitr = cgitr->second.find(hv)) != cgitr->second.end()
+                     && !same_group_definition(oitr->second, gresult.first->second); )
+                        ++hv;
                   gresult.first->second._hash = hv;
                   cgitr->second.insert(make_pair(hv, gresult.first->second));
                   CommonGroups::iterator cghitr(cgitr->second.find(hv));
@@ -1549,9 +1555,29 @@ uint32_t group_hash(const MessageSpec& p1)
    for (const auto& pp : p1._fields.get_presence())
       result = rothash(result, pp._fnum);
    for (const auto& pp : p1._groups)
-      result = rothash(result, group_hash(pp.second));
+      result = rothash(result, pp.second._hash ? pp.second._hash : group_hash(pp.second)); // the key the nested group was filed under
 
    return result;
+}
+
+//-------------------------------------------------------------------------------------------------
+// true if both group definitions have the same member fields and the same nested groups
+bool same_group_definition(const MessageSpec& p1, const MessageSpec& p2)
+{
+   if (p1._fields.get_presence().size() != p2._fields.get_presence().size() || p1._groups.size() != p2._groups.size())
+      return false;
+   Presence::const_iterator i2(p2._fields.get_presence().begin());
+   for (const auto& pp : p1._fields.get_presence())
+      if (pp._fnum != (i2++)->_fnum)
+         return false;
+   GroupMap::const_iterator g2(p2._groups.begin());
+   for (const auto& pp : p1._groups)
+   {
+      if (pp.first != g2->first || !same_group_definition(pp.second, g2->second))
+         return false;
+      ++g2;
+   }
+   return true;
 }
 
 //-------------------------------------------------------------------------------------------------
